@@ -36,6 +36,9 @@ type ServerOpts struct {
 	PeerSettings []peer.Setting
 	NoHandshake  bool // leave preface/SETTINGS to the scenario
 	MaxSteps     int
+	// EarlyBodyStream: every handler attaches a response body stream (SetBodyStream, unknown length) as soon as it
+	// starts and only then waits to be released: while it runs, the stream and the Response are its own
+	EarlyBodyStream bool
 }
 
 // Req is a request as the handler saw it through the fasthttp API.
@@ -199,6 +202,10 @@ func (h *Server) handle(ctx *fasthttp.RequestCtx) {
 		h.MaxRunning = h.Running
 	}
 	h.S.MarkInUse(ctx, "handler#"+strconv.Itoa(call.Idx))
+	if h.Opts.EarlyBodyStream {
+		call.reader = &streamReader{spec: &BodyStream{Chunks: [][]byte{[]byte("early-stream-body")}, Declared: -1}, owner: call, h: h}
+		ctx.Response.SetBodyStream(call.reader, -1)
+	}
 	r := vsched.Recv(call.gate)
 	if vsched.Dying() {
 		return
@@ -246,6 +253,9 @@ type streamReader struct {
 	off    int
 	reads  int
 	Closed int
+	// early: attached by a handler that is still running (EarlyBodyStream)
+	owner *Call
+	h     *Server
 }
 
 //go:norace
@@ -280,7 +290,13 @@ func (r *streamReader) Read(p []byte) (int, error) {
 }
 
 //go:norace
-func (r *streamReader) Close() error { r.Closed++; return nil }
+func (r *streamReader) Close() error {
+	r.Closed++
+	if r.owner != nil && !r.owner.Returned && r.h != nil && !vsched.Dying() {
+		r.h.S.Events = append(r.h.S.Events, "ownership: the response body stream of handler#"+strconv.Itoa(r.owner.Idx)+" was closed by the connection while the handler is still running")
+	}
+	return nil
+}
 
 // ---- driver events ----
 
@@ -597,7 +613,7 @@ func firstLine(s string) string {
 func (h *Server) PoolEvents() []string {
 	var out []string
 	for _, e := range h.S.Events {
-		if strings.HasPrefix(e, "pool:") {
+		if strings.HasPrefix(e, "pool:") || strings.HasPrefix(e, "ownership:") {
 			out = append(out, e)
 		}
 	}
